@@ -271,6 +271,18 @@ def array_verdicts(ctx, db, aff, cfg, u, vals, svs):
     if len(set(seen.values())) > 1:
         ctx.violation("array-verdict-depends-on-container-or-order", dict(case, verdicts={"%s%s" % k: v for k, v in list(seen.items())[:12]}), replay=case)
     ctx.nt(("array", c, u, want, len(vals), sum(1 for x in vals if x != x)))
+    # nested containers with a NaN in a row (not first): every element of every tuple is checked and NaN satisfies no limit
+    if has_limit and len([x for x in vals if x == x]) >= 2 and all(w == "valid" for w, _ in cls_):
+        good = [x for x in vals if x == x]
+        for kn, nested in (("list-of-tuples+nan", [(good[0], float("nan"), good[1]), tuple(good)]), ("tuple-of-tuples+nan", (tuple(good), (good[0], good[1], float("nan"))))):
+            ctx.ev()
+            try:
+                g = Array(c, nested, u).IsValid()
+            except Exception as e:
+                ctx.violation("nested-array-raised:%s" % type(e).__name__, dict(case, container=kn, error=str(e)[:200]), replay=case)
+                continue
+            if g:
+                ctx.violation("nested-array-with-NaN-accepted:%s" % kn.split("+")[0], dict(case, container=kn, nested=repr(nested)[:160]), replay=case)
     # nested containers (no NaN): every element of every tuple is checked
     flat = [x for x in vals if x == x]
     if len(flat) >= 2 and has_limit:
